@@ -82,3 +82,8 @@ Theorem C09_sd_binary64_never_nan : forall p s xs M, sd_new FOps p = Ok s -> (p 
   (1 <= M)%R -> (M <= bpow radix2 400)%R -> Forall (okin M) xs -> (INR (length xs) + 2 <= bpow radix2 40)%R ->
   Forall (fun o => finF o /\ (0 <= FR o)%R) (Wiring.sd_outs FOps s xs).
 Proof. exact sd_float_never_nan. Qed.
+From TA Require Import Proofs.FloatMad.
+Theorem C09_mad_binary64_never_nan : forall p s xs M, mad_new FOps p = Ok s -> (p < 1125899906842624)%N ->
+  (1 <= M)%R -> (M <= bpow radix2 400)%R -> Forall (okin M) xs -> (INR (length xs) + 2 <= bpow radix2 40)%R ->
+  Forall (fun o => finF o /\ (0 <= FR o)%R) (Wiring.mad_outs FOps s xs).
+Proof. exact mad_float_never_nan. Qed.
